@@ -25,6 +25,8 @@ MA_ACTIONS = [
     ("charge", [("?a", "t1")], ["and", [">=", ["g"], ["f", "?a"]]], ["and", ["decrease", ["g"], ["f", "?a"]], ["not", ["r"]]]),
     ("audit", [("?a", "t1")], ["and", ["forall", ["?z", "-", "t1"], ["or", ["p", "?z"], ["q", "?a", "?z"]]]],
      ["and", ["increase", ["f", "?a"], "2"]]),
+    # an agent whose precondition is a fact about ANOTHER agent (q ?b ?a): what the other agent's sweep deletes and take re-establishes
+    ("help", [("?a", "t1"), ("?b", "t1")], ["and", ["q", "?b", "?a"]], ["and", ["r"], ["increase", ["f", "?a"], "1"]]),
 ]
 
 
